@@ -12,6 +12,7 @@ import (
 	"math/big"
 	"os"
 	"path/filepath"
+	"regexp"
 	"sort"
 	"strings"
 	"time"
@@ -429,7 +430,7 @@ func famCollection(r *vh.Run) {
 						natural = 1
 						continue
 					}
-					ms = append(ms, fmt.Sprintf("v:%x:%x", m.p, newTok(m.p)))
+					ms = append(ms, fmt.Sprintf("v:%x:%x:%x", m.p, m.p, newTok(m.p)))
 					if seen[m.p] {
 						natural = 1
 					}
@@ -905,4 +906,113 @@ func globTemps(dir string) map[string]bool {
 		}
 	}
 	return m
+}
+
+// ---------- (i) collections whose members collide only after name sanitisation (production path, no faults) ----------
+
+// sanitised mirrors what sanitize.Path does to the raw names used here (':' and '/' become '_').
+func sanitised(raw string) string {
+	return strings.NewReplacer(":", "_", "/", "_").Replace(raw)
+}
+
+func famSanitise(r *vh.Run) {
+	reMember := regexp.MustCompile(`member (\d+) conflicts`)
+	pad := func(s string) string { return s + strings.Repeat("x", 14-len(s)) }
+	colls := [][]string{
+		{pad("n10"), pad("n11")},                             // ordinary distinct names
+		{pad("n10"), pad("n10")},                             // identical names
+		{pad("n10x:"), pad("n10x_")},                         // raw-different, sanitise-equal (':' -> '_')
+		{pad("n10x_"), pad("n10x/")},                         // the same through the path separator
+		{pad("n11"), pad("n10x:"), pad("n10x_")},             // collision after an accepted member
+		{pad("n10x:"), pad("n11"), pad("n12"), pad("n10x_")}, // collision at the end of a longer batch
+	}
+	entries := []string{"InstallTrueTypeCollection", "InstallTrueTypeCollectionResults", "api.InstallFonts"}
+	for ci, raws := range colls {
+		var fonts [][]byte
+		var wire []string
+		rawID := map[string]int{}
+		want := map[string]string{}
+		expect := "accept"
+		seen := map[string]bool{}
+		for i, raw := range raws {
+			fonts = append(fonts, patchedRoboto(raw))
+			if _, ok := rawID[raw]; !ok {
+				rawID[raw] = 0x40 + len(rawID)
+			}
+			var v int
+			fmt.Sscanf(stripName(sanitised(raw)), "%x", &v)
+			wire = append(wire, fmt.Sprintf("v:%x:%x:%x", rawID[raw], v, newTok(v)))
+			if seen[sanitised(raw)] && expect == "accept" {
+				expect = fmt.Sprintf("dup:%d", i+1)
+			}
+			seen[sanitised(raw)] = true
+			want[fmt.Sprintf("%x", v)] = fmt.Sprintf("1a4:%x", newTok(v))
+		}
+		ttc := buildTTC(fonts)
+		for _, populated := range []bool{false, true} {
+			for _, entry := range entries {
+				base := newBase()
+				F := filepath.Join(base, "1")
+				src := filepath.Join(base, "c.ttc")
+				wfile(src, ttc, 0o644)
+				if populated {
+					wfile(filepath.Join(F, pad("n3f")+".gob"), []byte{0xee}, 0o644)
+					for s := range seen {
+						var v int
+						fmt.Sscanf(stripName(s), "%x", &v)
+						wfile(filepath.Join(F, s+".gob"), oldTok(v), 0o644)
+					}
+				}
+				rc := newRec(base)
+				rc.canon = gobCanon(rc)
+				before := rc.snapshot()
+				var err error
+				var warns []error
+				switch entry {
+				case "InstallTrueTypeCollection":
+					var rep font.InstallReport
+					rep, err = font.InstallTrueTypeCollection(F, src)
+					warns = rep.Warnings
+				case "InstallTrueTypeCollectionResults":
+					var rep font.InstallReport
+					rep, err = font.InstallTrueTypeCollectionResults(F, src)
+					warns = rep.Warnings
+				default:
+					err = api.VerifInstallFonts([]string{src}, api.VerifFontAPIOps{UserFontDir: F, ReloadUserFonts: func() error { return nil },
+						Tx: api.VerifDefaultTxOps(), ReportCleanupWarning: func(e error) { warns = append(warns, e) }})
+				}
+				after := rc.snapshot()
+				for p := range globTemps(F) {
+					rc.tdirs[p] = len(rc.tdirs) + 1
+				}
+				// K: the staging decision (accept / reject + which member) against the model
+				got := "accept"
+				if err != nil {
+					got = "error"
+					if m := reMember.FindStringSubmatch(err.Error()); m != nil && errors.Is(err, font.ErrDuplicatePostScriptName) {
+						got = "dup:" + m[1]
+					}
+				}
+				r.Case("decide", []string{strings.Join(wire, ",")}, got)
+				in := map[string]any{"collection": raws, "populated": populated, "entry": entry}
+				// O: byte-exact directory equality after any failure (no leftover), all-or-nothing after success
+				if err != nil && before.String() != after.String() {
+					in["family"] = "sanitised-collision"
+					r.OracleFail("c06:collection-sanitised-names:directory-changed-by-failed-install", in,
+						fmt.Sprintf("before=%s after=%s err=%v", before, after, err))
+				} else {
+					causes := 0
+					if expect != "accept" {
+						causes = 1
+					}
+					oracle(r, outcome{fam: "collection-sanitised-names", input: in, err: err, warns: warns, causes: causes, wrapper: true,
+						before: before, after: after, want: want, rec: rc})
+				}
+				if (expect == "accept") != (err == nil) {
+					r.Count("class:sanitise-decision-unexpected")
+				}
+				r.Count(fmt.Sprintf("class:sanitise-coll%d", ci))
+			}
+		}
+	}
 }
